@@ -313,13 +313,15 @@ type Rx struct {
 
 type Term struct {
 	VerByte int // 0: default (version byte 1); otherwise the version byte to send, plus 1
-	Conn   *net.TCPConn
-	V2019  bool
-	BCD    []byte
-	Phone  string
-	Rx     chan Rx
-	rxDone chan struct{}
-	wmu    sync.Mutex
+	Conn    *net.TCPConn
+	V2019   bool
+	BCD     []byte
+	Phone   string
+	Rx      chan Rx
+	rxDone  chan struct{}
+	wmu     sync.Mutex
+	peekMu  sync.Mutex
+	peeked  *peeked
 }
 
 // PhoneBCD renders a decimal string into n BCD bytes, left-padded with zeros.
@@ -399,13 +401,43 @@ func (t *Term) Write(b []byte) error {
 }
 
 // Next waits for the next frame from the server. ok=false: connection closed. timedOut: watchdog (inconclusive).
+type peeked struct {
+	rx Rx
+	ok bool
+}
+
 func (t *Term) Next(d time.Duration) (rx Rx, ok bool, timedOut bool) {
+	t.peekMu.Lock()
+	if p := t.peeked; p != nil {
+		t.peeked = nil
+		t.peekMu.Unlock()
+		return p.rx, p.ok, false
+	}
+	t.peekMu.Unlock()
+	return t.nextRaw(d)
+}
+
+func (t *Term) nextRaw(d time.Duration) (rx Rx, ok bool, timedOut bool) {
 	select {
 	case rx, ok = <-t.Rx:
 		return rx, ok, false
 	case <-time.After(d):
 		return Rx{}, false, true
 	}
+}
+
+// Peek waits like Next but leaves the frame in place for the following Next.
+func (t *Term) Peek(d time.Duration) (rx Rx, ok bool, timedOut bool) {
+	t.peekMu.Lock()
+	defer t.peekMu.Unlock()
+	if t.peeked != nil {
+		return t.peeked.rx, t.peeked.ok, false
+	}
+	rx, ok, timedOut = t.nextRaw(d)
+	if !timedOut {
+		t.peeked = &peeked{rx, ok}
+	}
+	return
 }
 
 func (t *Term) Close() { t.Conn.Close() }
